@@ -482,6 +482,120 @@ fn c19_deep(c: &DeepStream, st: &mut Stats) -> CheckResult {
     Ok(Outcome::Ok)
 }
 
+
+/// Large backlogs: hundreds to thousands of messages are pending when a poll happens (nothing may depend on how many
+/// messages one poll has to take).
+#[derive(Clone, Debug, Serialize, Deserialize, Hash)]
+pub struct Backlog {
+    pub vars: u16,
+    /// (position in per mille of the program at which the poll happens, kind of the requested handle)
+    pub polls: Vec<(u16, u8)>,
+    pub relay: bool,
+    pub ands: u8,
+}
+
+fn backlog_case() -> BoxedStrategy<Backlog> {
+    (
+        prop_oneof![2 => 505u16..530, 2 => 1020u16..1030, 1 => 200u16..4200, 1 => 4090u16..4110],
+        proptest::collection::vec((0u16..1000, 0u8..4), 0..3),
+        any::<bool>(),
+        0u8..12,
+    )
+        .prop_map(|(vars, polls, relay, ands)| Backlog { vars, polls, relay, ands })
+        .boxed()
+}
+
+fn c19_backlog(c: &Backlog, st: &mut Stats) -> CheckResult {
+    use adf_bdd::datatypes::Var;
+    let (s, r) = crossbeam_channel::unbounded();
+    let mut producer = Bdd::with_sender(s);
+    let (mut mirror, mut last) = if c.relay {
+        let (s2, r2) = crossbeam_channel::unbounded();
+        (Bdd::with_sender_receiver(s2, r), Some(Bdd::with_receiver(r2)))
+    } else {
+        (Bdd::with_receiver(r), None)
+    };
+    let v = c.vars as usize;
+    let mut biggest = 0usize;
+    let mut polled = 0usize;
+    let mut poll = |producer: &Bdd, mirror: &mut Bdd, last: &mut Option<Bdd>, at: u16, kind: u8, which: &str| -> Result<usize, String> {
+        let n = producer.nodes.len();
+        let ask = match kind {
+            0 => n - 1,
+            1 => 2 + (at as usize * 7) % (n - 1).max(1),
+            2 => n + 3,
+            _ => n.saturating_sub(2).max(2),
+        };
+        let mut taken = 0usize;
+        for (name, store) in [("the receiver", Some(&mut *mirror)), ("the receiver behind the relay", last.as_mut())] {
+            let Some(store) = store else { continue };
+            let before = store.nodes.len();
+            let found = store.recv(Term(ask));
+            // what is in the channel of the second store is what the first one has forwarded: everything it holds
+            let avail = if name == "the receiver" { n } else { mirror_len_hint(before, n) };
+            let _ = avail;
+            let after = store.nodes.len();
+            if name == "the receiver" {
+                let want = if ask < n { before.max(ask + 1) } else { n };
+                if after != want {
+                    return Err(format!("{which}: {name} held {before} nodes, {} messages were pending, poll for handle {ask}: it holds {after} nodes afterwards, the poll contract gives {want}", n - before));
+                }
+                if found != (ask < n) {
+                    return Err(format!("{which}: poll for handle {ask} with {n} nodes produced returned {found}"));
+                }
+                taken = after - before;
+            } else if found != (ask < after) {
+                return Err(format!("{which}: {name} answered {found} for handle {ask} and holds {after} nodes"));
+            }
+            if store.nodes[..] != producer.nodes[..after] {
+                let first = (0..after).find(|&i| store.nodes[i] != producer.nodes[i]).unwrap_or(0);
+                return Err(format!("{which}: {name} holds {after} nodes which are not the producer's first {after} (first difference at handle {first}; {before} held before the poll)"));
+            }
+        }
+        Ok(taken)
+    };
+    fn mirror_len_hint(_b: usize, n: usize) -> usize {
+        n
+    }
+    let mut handles = Vec::new();
+    for i in 0..v {
+        handles.push(producer.variable(Var(i)));
+        if c.ands > 0 && i % 97 == 96 {
+            let a = handles[i - (c.ands as usize % 90)];
+            let b = handles[i];
+            let x = producer.and(a, b);
+            let _ = producer.or(x, handles[i - 1]);
+        }
+        for (at, kind) in &c.polls {
+            if (*at as usize * v) / 1000 == i {
+                let t = poll(&producer, &mut mirror, &mut last, *at, *kind, &format!("after {} variables", i + 1))?;
+                biggest = biggest.max(t);
+                polled += 1;
+            }
+        }
+    }
+    let n = producer.nodes.len();
+    let t = poll(&producer, &mut mirror, &mut last, 0, 2, "at the end")?;
+    biggest = biggest.max(t);
+    if mirror.nodes != producer.nodes {
+        return Err(format!("after taking everything the receiver has {} nodes, the producer {n}", mirror.nodes.len()));
+    }
+    if let Some(last) = last.as_mut() {
+        let _ = last.recv(Term(n + 1));
+        if last.nodes != producer.nodes {
+            return Err(format!("after taking everything the receiver behind the relay has {} nodes, the producer {n}", last.nodes.len()));
+        }
+    }
+    st.label(if biggest > 512 { "backlog>512" } else { "backlog<=512" });
+    if biggest > 1024 {
+        st.label("backlog>1024");
+    }
+    if biggest >= 300 {
+        st.nontrivial(stable_hash(c), || json!({"nodes": n, "polls": polled + 1, "largest_backlog_taken_by_one_poll": biggest, "relay": c.relay}));
+    }
+    Ok(Outcome::Ok)
+}
+
 pub fn c19(tier: Tier) -> PropSpec {
     PropSpec {
         id: "C19",
@@ -493,7 +607,7 @@ pub fn c19(tier: Tier) -> PropSpec {
                handle present afterwards iff handle was in table-or-channel; stream == nodes[2..]; after draining tables identical; the store behind a relay may be dropped mid-stream (the relay must carry on), and a producer whose listener hangs up mid-program must stay a correct store. \
                For streams of <= 7 messages all one- and two-poll schedules x all requested handles are enumerated exhaustively. \
                Part 'threads' runs the producer in a real thread (unbounded or bounded channel of capacity 1..3, where the producer blocks until the receiver polls) against a concurrently polling receiver: prefix invariant at every poll, identical tables at the end. \
-               Non-trivial: a poll with 0 < delivered < total asking for a handle not yet present.",
+               Part 'backlog': 200..4200 messages pending when a poll happens (sizes around 512, 1024, 4096), direct and through a relay: poll contract, prefix invariant, final equality. Non-trivial: a poll with 0 < delivered < total asking for a handle not yet present.",
         assumptions: vec![
             "unbounded crossbeam channel: the producer never blocks, so the set of observable interleavings equals the set of prefix cuts",
         ],
@@ -504,6 +618,8 @@ pub fn c19(tier: Tier) -> PropSpec {
             Part::new("threads", tier.pick(800, 8000), || stream_case(5, 40), c19_threads),
             // diagrams over 65..100 variables (long chains: children of very different depth, variable indices beyond one machine word)
             Part::new("deep-stream", tier.pick(1500, 15000), deep_stream_case, c19_deep),
+            // hundreds to thousands of pending messages taken by one poll
+            Part::new("backlog", tier.pick(600, 6000), backlog_case, c19_backlog),
             // the streaming frontend under every cargo feature set that has it (probe binaries of C12): the mirror must
             // reproduce the producer's table in every build, builds without the frontend replay the node list
             Part::with_shrink("feature-lanes", tier.pick(250, 2500), 200, crate::props::features::probe_stream_case, crate::props::features::c12_check_entry),
@@ -668,6 +784,207 @@ fn c20_lazy(v: &Vec<u8>, st: &mut Stats) -> CheckResult {
     Ok(Outcome::Ok)
 }
 
+
+/// Every way of consuming an iterator must see the same sequence: `j` items through `next()`, the rest through one of the
+/// standard consumers (which an implementation may override: fold, for_each, count, last, nth, collect into other containers).
+#[derive(Clone, Debug, Serialize, Deserialize, Hash)]
+pub struct ConsumeCase {
+    pub v: Vec<u8>,
+    pub j: u8,
+    pub style: u8,
+    pub three: bool,
+}
+
+fn consume_rest<I: Iterator<Item = Vec<Term>>>(mut it: I, style: u8, expect_rest: usize) -> Result<Vec<Vec<Term>>, String> {
+    let (lo, hi) = it.size_hint();
+    if lo > expect_rest || hi.map(|h| h < expect_rest).unwrap_or(false) {
+        return Err(format!("size_hint ({lo}, {hi:?}) is wrong: {expect_rest} items remain"));
+    }
+    Ok(match style % 10 {
+        0 => it.collect(),
+        1 => {
+            let mut out = Vec::new();
+            it.for_each(|x| out.push(x));
+            out
+        }
+        2 => it.fold(Vec::new(), |mut acc, x| {
+            acc.push(x);
+            acc
+        }),
+        3 => {
+            // count() must equal the number of remaining items; the items themselves through a second pass are not
+            // available, so only the number is compared (signalled by an empty marker list of that length)
+            let n = it.count();
+            if n != expect_rest {
+                return Err(format!("count() = {n} but {expect_rest} items remain"));
+            }
+            return Err(String::new());
+        }
+        4 => {
+            let mut out = Vec::new();
+            while let Some(x) = it.nth(0) {
+                out.push(x);
+            }
+            out
+        }
+        5 => it.filter(|_| true).collect(),
+        6 => it.map(|x| x).collect::<std::collections::VecDeque<_>>().into_iter().collect(),
+        7 => {
+            // skip one through nth(1) every other time
+            let mut out = Vec::new();
+            let mut idx = 0usize;
+            loop {
+                match it.nth(1) {
+                    Some(x) => {
+                        out.push((idx + 1, x));
+                        idx += 2;
+                    }
+                    None => break,
+                }
+            }
+            // compare only the odd positions
+            return Err(format!("ODD:{}", serde_json::to_string(&out.iter().map(|(i, x)| (*i, x.iter().map(|t| t.value()).collect::<Vec<_>>())).collect::<Vec<_>>()).unwrap()));
+        }
+        8 => {
+            let l = it.last();
+            return Err(format!("LAST:{}", serde_json::to_string(&l.map(|x| x.iter().map(|t| t.value()).collect::<Vec<_>>())).unwrap()));
+        }
+        _ => {
+            let mut out = Vec::new();
+            for x in it.by_ref().take(2) {
+                out.push(x);
+            }
+            it.for_each(|x| out.push(x));
+            out
+        }
+    })
+}
+
+fn c20_consume(c: &ConsumeCase, st: &mut Stats) -> CheckResult {
+    let input = to_terms(&c.v);
+    let reference: Vec<Vec<Term>> = if c.three {
+        let mut it = ThreeValuedInterpretationsIterator::new(&input);
+        let mut r = Vec::new();
+        while let Some(x) = it.next() {
+            r.push(x);
+        }
+        r
+    } else {
+        let mut it = TwoValuedInterpretationsIterator::new(&input);
+        let mut r = Vec::new();
+        while let Some(x) = it.next() {
+            r.push(x);
+        }
+        r
+    };
+    let j = (c.j as usize).min(reference.len());
+    let name = if c.three { "three-valued" } else { "two-valued" };
+    let mut head = Vec::new();
+    let rest = if c.three {
+        let mut it = ThreeValuedInterpretationsIterator::new(&input);
+        for _ in 0..j {
+            head.push(it.next().ok_or("iterator ended early")?);
+        }
+        consume_rest(it, c.style, reference.len() - j)
+    } else {
+        let mut it = TwoValuedInterpretationsIterator::new(&input);
+        for _ in 0..j {
+            head.push(it.next().ok_or("iterator ended early")?);
+        }
+        consume_rest(it, c.style, reference.len() - j)
+    };
+    if head[..] != reference[..j] {
+        return Err(format!("{name}: a second iterator over the same interpretation yields other first items"));
+    }
+    let val = |x: &Vec<Term>| x.iter().map(|t| t.value()).collect::<Vec<_>>();
+    match rest {
+        Ok(rest) => {
+            if rest[..] != reference[j..] {
+                return Err(format!(
+                    "{name} iterator over {:?}: after {j} next() calls, consuming the rest in style {} yields {:?} but stepping with next() yields {:?}",
+                    c.v,
+                    c.style % 10,
+                    rest.iter().map(val).collect::<Vec<_>>(),
+                    reference[j..].iter().map(val).collect::<Vec<_>>()
+                ));
+            }
+        }
+        Err(e) if e.is_empty() => {}
+        Err(e) if e.starts_with("ODD:") => {
+            let want: Vec<(usize, Vec<usize>)> = reference[j..].iter().enumerate().filter(|(i, _)| i % 2 == 1).map(|(i, x)| (i, val(x))).collect();
+            if e[4..] != serde_json::to_string(&want).unwrap() {
+                return Err(format!("{name} iterator over {:?}: after {j} next() calls, nth(1) steps yield {} but next() gives {:?}", c.v, &e[4..], want));
+            }
+        }
+        Err(e) if e.starts_with("LAST:") => {
+            let want = if j < reference.len() { reference.last().map(val) } else { None };
+            if e[5..] != serde_json::to_string(&want).unwrap() {
+                return Err(format!("{name} iterator over {:?}: after {j} next() calls, last() = {} but next() gives {:?}", c.v, &e[5..], want));
+            }
+        }
+        Err(e) => return Err(format!("{name} iterator over {:?} after {j} next() calls: {e}", c.v)),
+    }
+    st.label(&format!("style={}", c.style % 10));
+    if j >= 2 && reference.len() - j >= 3 {
+        st.nontrivial(stable_hash(c), || json!({"vector": c.v, "next_calls_before": j, "style": c.style % 10, "three_valued": c.three}));
+    }
+    Ok(Outcome::Ok)
+}
+
+/// vectors longer than 2^16 entries with the undecided positions around and beyond index 65536
+fn c20_long(c: &(u32, Vec<u32>), st: &mut Stats) -> CheckResult {
+    let len = c.0 as usize;
+    let mut input: Vec<Term> = (0..len).map(|i| if i % 3 == 0 { Term::TOP } else { Term::BOT }).collect();
+    let mut und: Vec<usize> = c.1.iter().map(|d| len - 1 - (*d as usize % len)).collect();
+    und.sort();
+    und.dedup();
+    for (n, &i) in und.iter().enumerate() {
+        input[i] = Term(2 + n * 5);
+    }
+    let k = und.len() as u32;
+    for three in [false, true] {
+        let name = if three { "three-valued" } else { "two-valued" };
+        let items: Vec<Vec<Term>> = if three {
+            ThreeValuedInterpretationsIterator::new(&input).collect()
+        } else {
+            TwoValuedInterpretationsIterator::new(&input).collect()
+        };
+        let want = if three { 3usize.pow(k) } else { 1usize << k };
+        if items.len() != want {
+            return Err(format!("{name} iterator over {len} entries with undecided positions {und:?} yielded {} items instead of {want}", items.len()));
+        }
+        if three && items[0] != input {
+            return Err(format!("{name}: first item is not the interpretation itself (length {len}, undecided {und:?})"));
+        }
+        let mut seen = HashSet::new();
+        for item in &items {
+            if item.len() != len {
+                return Err(format!("{name}: item of wrong length"));
+            }
+            let mut key = Vec::new();
+            for i in 0..len {
+                if input[i].is_truth_value() {
+                    if item[i] != input[i] {
+                        return Err(format!("{name}: decided position {i} altered (length {len}, undecided {und:?})"));
+                    }
+                } else {
+                    if !(item[i].is_truth_value() || (three && item[i] == input[i])) {
+                        return Err(format!("{name}: position {i} holds {:?} (length {len}, undecided {und:?})", item[i]));
+                    }
+                    key.push(item[i]);
+                }
+            }
+            if !seen.insert(key) {
+                return Err(format!("{name}: an item is yielded twice (length {len}, undecided {und:?})"));
+            }
+        }
+    }
+    if len > 65536 && und.iter().any(|&i| i >= 65536) && k >= 1 {
+        st.nontrivial(stable_hash(c), || json!({"length": len, "undecided": und}));
+    }
+    Ok(Outcome::Ok)
+}
+
 pub fn c20(tier: Tier) -> PropSpec {
     let maxlen = tier.pick(7, 9);
     PropSpec {
@@ -676,7 +993,7 @@ pub fn c20(tier: Tier) -> PropSpec {
         rule: "exhaustive: every vector over {bot, top, undecided} of length 0..=7 (thorough 9); generated: lengths <= 14 with <= 9 \
                undecided positions holding arbitrary distinct handles. Two-valued iterator: exactly 2^k items, pairwise distinct, decided \
                positions untouched, others decided; three-valued: exactly 3^k, distinct, each position kept or decided, first item == input; \
-               next() after exhaustion stays None. Part lazy-large: lengths 10..140 with up to ~100 undecided positions, the first 6 items of both iterators (laziness: nothing may depend on 2^k / 3^k fitting a machine word). Non-trivial: k >= 2 with undecided positions at both ends or next to a decided one.",
+               next() after exhaustion stays None. Part lazy-large: lengths 10..140 with up to ~100 undecided positions, the first 6 items of both iterators (laziness: nothing may depend on 2^k / 3^k fitting a machine word). Part consumption: after j next() calls the rest is consumed through collect / for_each / fold / count / nth / last / filter / by_ref+take and must be the sequence next() yields (size_hint must bracket the remaining number). Part longer-than-2^16: vectors of 65530..131090 entries with undecided positions at and beyond index 65536. Non-trivial: k >= 2 with undecided positions at both ends or next to a decided one.",
         assumptions: vec![],
         exhaustive: true,
         parts: vec![
@@ -704,6 +1021,33 @@ pub fn c20(tier: Tier) -> PropSpec {
                 c20_check,
             ),
             Box::new(Logged(EnumPart::new("exhaustive-with-logging", || all_vectors(5), c20_check))),
+            Part::new(
+                "consumption",
+                tier.pick(40000, 400000),
+                || {
+                    (proptest::collection::vec(prop_oneof![1 => 0u8..2, 2 => 2u8..6], 0..8), 0u8..30, any::<u8>(), any::<bool>())
+                        .prop_map(|(mut v, j, style, three)| {
+                            let mut u = 0;
+                            for x in v.iter_mut() {
+                                if *x >= 2 {
+                                    u += 1;
+                                    if u > 5 {
+                                        *x = 0;
+                                    }
+                                }
+                            }
+                            ConsumeCase { v, j, style, three }
+                        })
+                        .boxed()
+                },
+                c20_consume,
+            ),
+            Part::new(
+                "longer-than-2^16",
+                tier.pick(160, 1600),
+                || (prop_oneof![3 => 65530u32..65560, 1 => 131060u32..131090, 1 => 70000u32..70010], proptest::collection::vec(prop_oneof![3 => 0u32..12, 1 => 0u32..70000], 0..4)).boxed(),
+                c20_long,
+            ),
             Part::new(
                 "lazy-large",
                 tier.pick(3000, 30000),
